@@ -7,6 +7,7 @@
 package httpMiddleware
 
 import (
+	"bytes"
 	"io"
 	"log/slog"
 	"net/http"
@@ -40,8 +41,10 @@ func getRequestBodyAsString(r *http.Request) (string, error) {
 		return "", err
 	}
 
-	//nolint:errcheck // skip error in defer
-	defer r.Body.Close()
+	//nolint:errcheck // the body has been read completely
+	r.Body.Close()
+	// hand the body back to the handlers further down the chain
+	r.Body = io.NopCloser(bytes.NewReader(bodyBytes))
 
 	bodyString := string(bodyBytes)
 	return bodyString, nil
